@@ -6,9 +6,8 @@
          not once `**` is restricted to non-negative operands — the class K_pow (known/C26.json, same site):
          `Int ** Int`, `Nat ** Int`, `Int ** Nat` are declared Nat, `Float ** x` Float.
     C34  [judge_c34 v t]: the run-time value belongs to the reported type ([has_ty], ProofsTypes / Props_C34).
-         [known_c34 e]: syntactic classes of defining expressions for which erg reports an unsound type (findings):
-         1 `not e` (the operand's type is reported for the negation), 2 `l.sum()` (the element type is reported),
-         3 `a + b` on lists where an operand is not a list literal (length / element type of the left operand reused). *)
+         [known_c34 p x]: class of the defining expression of binding x for which erg reports an unsound type
+         (findings, see below). *)
 From Coq Require Import ZArith List Bool.
 From ErgV Require Import CoreErg.Syntax CoreErg.Sem Typing.Types Typing.Check Typing.Eval.
 Import ListNotations.
@@ -97,12 +96,51 @@ Definition judge_c02 (s : status) : bool :=
 
 Definition judge_c34 (v : value) (t : ety) : bool := has_ty v t.
 
-Definition is_list_lit (e : tm) : bool := match e with XList _ => true | _ => false end.
+(** known classes of C34 (findings, known/C34.json), decided on the defining expression of a top-level binding:
+    1  `not e` at the root: erg reports the operand's type for the negation ({True} for `not True`);
+    2  a `.sum()` inside: erg reports the element type ({1, 2, 3} for [1, 2, 3].sum());
+    3  a list `+` whose left operand is push-derived (a push call or a variable bound to one): erg reports the length
+       2 * N and the element type of the left operand only (the DESIGN.md example l.push(4) + [5] : List(.., 8));
+    a binding defined from a binding of a class inherits the class. *)
+Section TmExists.
+  Variable P : tm -> bool.
+  Fixpoint tm_exists (e : tm) {struct e} : bool :=
+    let any := fix any (es : list tm) : bool := match es with [] => false | x :: r => tm_exists x || any r end in
+    P e ||
+    match e with
+    | XLit _ | XVar _ => false
+    | XUn _ a => tm_exists a
+    | XBin _ a b | XCmp _ a b | XLogic _ a b | XIndex a b => tm_exists a || tm_exists b
+    | XList es => any es
+    | XIf c a b => tm_exists c || tm_exists a || tm_exists b
+    | XCall _ args => any args
+    | XMeth _ r args => tm_exists r || any args
+    end.
+End TmExists.
 
-Definition known_c34 (e : tm) : Z :=
+Definition push_derived (Pv : list Z) (e : tm) : bool :=
   match e with
-  | XUn UNot _ => 1
-  | XMeth m _ _ => if m =? M_sum then 2 else 0
-  | XBin OAdd a b => if is_list_lit a && is_list_lit b then 0 else 3
-  | _ => 0
+  | XMeth m _ _ => m =? M_push
+  | XVar x => mem_z x Pv
+  | _ => false
   end.
+
+Fixpoint class_of_var (x : Z) (K : list (Z * Z)) : Z :=
+  match K with [] => 0 | (y, c) :: r => if x =? y then c else class_of_var x r end.
+
+Definition k34_tm (Pv : list Z) (K : list (Z * Z)) (e : tm) : Z :=
+  if tm_exists (fun x => match x with XBin OAdd a _ => push_derived Pv a | _ => false end) e then 3
+  else if tm_exists (fun x => match x with XMeth m _ _ => m =? M_sum | _ => false end) e then 2
+  else if (match e with XUn UNot _ => true | _ => false end) then 1
+  else fold_right Z.max 0 (map (fun kc => if tm_exists (fun x => match x with XVar y => y =? fst kc | _ => false end) e
+                                          then snd kc else 0) K).
+
+Fixpoint k34_walk (Pv : list Z) (K : list (Z * Z)) (p : prog) : list (Z * Z) :=
+  match p with
+  | [] => K
+  | TDef x _ e :: r =>
+    k34_walk (if push_derived Pv e then x :: Pv else Pv) ((x, k34_tm Pv K e) :: K) r
+  | _ :: r => k34_walk Pv K r
+  end.
+
+Definition known_c34 (p : prog) (x : Z) : Z := class_of_var x (k34_walk [] [] p).
